@@ -1127,23 +1127,39 @@ where
         W: std::io::Write,
     {
         let length = u64::from(length);
-        std::io::copy(&mut self.from.by_ref().take(length), &mut out).context(
+        let copied = std::io::copy(&mut self.from.by_ref().take(length), &mut out).context(
             ReadValueDataSnafu {
                 position: self.position,
             },
         )?;
+        if copied < length {
+            // the source ended before the declared number of bytes
+            return Err(std::io::Error::from(std::io::ErrorKind::UnexpectedEof)).context(
+                ReadValueDataSnafu {
+                    position: self.position + copied,
+                },
+            );
+        }
         self.position += length;
         Ok(())
     }
 
     fn skip_bytes(&mut self, length: u32) -> Result<()> {
-        std::io::copy(
+        let skipped = std::io::copy(
             &mut self.from.by_ref().take(u64::from(length)),
             &mut std::io::sink(),
         )
         .context(ReadValueDataSnafu {
             position: self.position,
         })?;
+        if skipped < u64::from(length) {
+            // the source ended before the declared number of bytes
+            return Err(std::io::Error::from(std::io::ErrorKind::UnexpectedEof)).context(
+                ReadValueDataSnafu {
+                    position: self.position + skipped,
+                },
+            );
+        }
 
         self.position += u64::from(length);
         Ok(())
